@@ -7,6 +7,7 @@ theorems apply to the new box.
 -/
 import MysticVerif.Proofs.Solver
 import MysticVerif.Proofs.NelderMead
+import MysticVerif.Proofs.PowellS
 
 namespace MysticVerif.C02
 open MysticVerif.Solver
@@ -84,5 +85,23 @@ def exObj : Obj Int Int :=
   { raw := fun x => x, pen := fun _ => 0, K := id, inBox := fun x => decide (0 ≤ x ∧ x ≤ 5), useRange := true,
     top := 100, add := (· + ·) }
 example : exObj.evalB 7 [] = (100, []) ∧ exObj.evalB 3 [] = (3, [(3, 3)]) := by decide
+
+/-! ## Powell on the decorated objective (any line-search oracle) -/
+open MysticVerif.PowellS
+
+/-- **Powell: every evaluation the line searches, the extrapolation step and the initial evaluation make lies in the
+box** - each goes through `Obj.objK`, hence through the box test -/
+theorem pw_evaluations_in_box [Sub R] [Mul R] [LinearOrder E] (o : Obj (Pt R) E) (h : Hyp o) (c : PwCfg R E)
+    (ls : Nat → Pt R → Pt R → LsRec R) (record : Bool) (x0 : Pt R) (direc : List (Pt R)) (hd : direc ≠ []) (n : Nat)
+    (hu : o.useRange = true) : ∀ p ∈ (reach o c ls record x0 direc n).log, o.inBox p.1 = true := by
+  intro p hp
+  exact ((reach_inv h c ls record x0 direc hd n).logOK p hp).2.2 hu
+
+/-- **Powell: a finite reported best lies in the box** -/
+theorem pw_best_in_box [Sub R] [Mul R] [LinearOrder E] (o : Obj (Pt R) E) (h : Hyp o) (c : PwCfg R E)
+    (ls : Nat → Pt R → Pt R → LsRec R) (record : Bool) (x0 : Pt R) (direc : List (Pt R)) (hd : direc ≠ []) (n : Nat)
+    (hu : o.useRange = true) (hfin : (reach o c ls record x0 direc n).fval ≠ o.top) :
+    o.inBox (reach o c ls record x0 direc n).x = true :=
+  ((reach_inv h c ls record x0 direc hd n).best hfin).2.2.2 hu
 
 end MysticVerif.C02
